@@ -524,7 +524,7 @@ impl Property for C04 {
     const ID: &'static str = "C04";
     type Case = Case;
     fn rule() -> String {
-        "cases = (document whose mappings repeat key nodes 0..3 times, layout, target); every case is run under all three policies. Key kinds: plain / quoted scalars (same text in another style is the same key), tagged scalars and sequences (another tag - core or application - is another key), flow sequences, flow mappings, aliased keys, the null key (`~`, or an omitted node that carries an anchor) next to the empty-string key; family merge-source-repeats: a mapping consumed as a `<<` source (in place, through an alias, in a merge sequence, below a nested merge) repeats keys among its own entries; the entry after a repeated key carries values from scalars up to 4-level containers with aliases. Exhaustive: all mappings with <= 4 entries over 2 key identities x 3 key kinds x 3 value shapes, nested at 3 positions; random beyond. Oracle: Error => DuplicateMappingKey located at the second occurrence of the key node (ground truth from the renderer); FirstWins => value == value(document with every later entry deleted); LastWins => the order-preserving all-strings target receives every entry in document order and an overwriting map equals value(document with every earlier entry deleted); no repeated key => identical results under all three policies. Non-trivial: a repeated key followed by a container value, or a non-scalar repeated key.".into()
+        "cases = (document whose mappings repeat key nodes 0..3 times, layout, target); every case is run under all three policies. Key kinds: plain / quoted scalars (same text in another style is the same key), tagged scalars and sequences (another tag - core or application - is another key), flow sequences, flow mappings, sequence / mapping keys that differ only in the tag of a node inside them (`[!t a, b]` / `[!u a, b]`, `{a: !t 1}` / `{a: !u 1}` / `{!t a: 1}`), tagged mapping keys (open finding: excluded), aliased keys, the null key (`~`, or an omitted node that carries an anchor) next to the empty-string key; family merge-source-repeats: a mapping consumed as a `<<` source (in place, through an alias, in a merge sequence, below a nested merge) repeats keys among its own entries; the entry after a repeated key carries values from scalars up to 4-level containers with aliases. Exhaustive: all mappings with <= 4 entries over 2 key identities x 3 key kinds x 3 value shapes, nested at 3 positions; random beyond. Oracle: Error => DuplicateMappingKey located at the second occurrence of the key node (ground truth from the renderer); FirstWins => value == value(document with every later entry deleted); LastWins => the order-preserving all-strings target receives every entry in document order and an overwriting map equals value(document with every earlier entry deleted); no repeated key => identical results under all three policies. Non-trivial: a repeated key followed by a container value, or a non-scalar repeated key.".into()
     }
     fn assumptions() -> Vec<String> {
         vec![
